@@ -49,7 +49,7 @@ def time_contract(cls):
         note='strings without a fraction: accepted iff they end in Z, carry no +/- zone, no comma and fit the window')
 
 
-from pyvc.core import PRecSeq, Length, mk_seq
+from pyvc.core import PRecSeq, Length, mk_seq, concrete, And, Or, Not
 
 TAG_SORT_KEY = Contract(
     id='cer.encoder::SetEncoder._tagSortKey', file=F, qual='SetEncoder._tagSortKey', properties=['C03', 'C04'],
@@ -197,3 +197,82 @@ CONTRACTS = CONTRACTS + [CER_SETOF]
 
 CER_SEQOF.bounded = 'collections of at most 2 elements'
 DER_SORT_KEY.bounded = 'untagged CHOICEs nested at most 3 deep'
+
+
+# ---- CER/DER SET (X.690 10.3 / 9.3): present members only, in ascending order of their tags ---------------------------------------
+# Bounded: records of exactly 3 members (python's sorted() axiomatised for the keys at hand); labelled so.
+NSETM = 3
+_MCH = [z3.Const('memberEncoding%d' % i, z3.SeqSort(z3.IntSort())) for i in range(NSETM)]
+_KCLS = [z3.Int('key.class.%d' % i) for i in range(NSETM)]
+_KID = [z3.Int('key.number.%d' % i) for i in range(NSETM)]
+_FL = lambda n, i: z3.Bool('%s.%d' % (n, i))
+
+
+def _set_record(ex, env):
+    comps, nts = [], []
+    for i in range(NSETM):
+        dflt = Obj('Default', {}, name='default%d' % i)
+        eqd = _FL('equalsDefault', i)
+        comps.append(Obj('Component', {'isValue': _FL('isValue', i), 'position': i},
+                         {'__eq__': (lambda e: (lambda ex2, self, other: e))(eqd)}, name='component%d' % i))
+        nts.append(Obj('NamedType', {'isOptional': _FL('isOptional', i), 'isDefaulted': _FL('isDefaulted', i), 'asn1Object': dflt,
+                                     'openType': None}, name='namedType%d' % i))
+    named = Obj('NamedTypes', {'__truthy__': True}, {'__getitem__': lambda ex2, self, i: nts[concrete(i)]}, name='namedTypes')
+    return Obj('Set', {'isInconsistent': False, 'componentType': named}, {'values': lambda ex2, self: Tup(list(comps), 'list')},
+               name='value')
+
+
+def _member_sort_key(ex, self, pair):
+    """callee contracts SetEncoder._componentSortKey / _tagSortKey (proved): (class, number) of the member's outermost tag"""
+    comp = pair.items[0]
+    i = comp.fields['position']
+    return Tup([_KCLS[i], _KID[i]])
+
+
+def _encode_member3(ex, component, asn1Spec=None, **options):
+    from pyvc.core import inr
+    i = component.fields['position']
+    ex.assume(inr(_MCH[i]))
+    return SeqV(_MCH[i], 'bytes')
+
+
+def _set_expected(ex, result):
+    """result = the encodings of the present members in an arrangement whose tag keys ascend (ties: declaration order)"""
+    import itertools
+    E = z3.Empty(z3.SeqSort(z3.IntSort()))
+
+    def present(i):
+        return And(Not(And(_FL('isOptional', i), Not(_FL('isValue', i)))), Not(And(_FL('isDefaulted', i), _FL('equalsDefault', i))))
+
+    def key_le(i, j):
+        return Or(_KCLS[i] < _KCLS[j], And(_KCLS[i] == _KCLS[j], _KID[i] <= _KID[j]))
+
+    def key_lt(i, j):
+        return Or(_KCLS[i] < _KCLS[j], And(_KCLS[i] == _KCLS[j], _KID[i] < _KID[j]))
+    cases = []
+    for subset in itertools.product([False, True], repeat=NSETM):
+        members = [i for i in range(NSETM) if subset[i]]
+        cond = And(*[present(i) if subset[i] else Not(present(i)) for i in range(NSETM)])
+        arrangements = []
+        for perm in itertools.permutations(members):
+            order = [And(key_le(i, j), Or(key_lt(i, j), z3.BoolVal(i < j))) for i, j in zip(perm, perm[1:])]
+            parts = [_MCH[i] for i in perm]
+            cat = E if not parts else (parts[0] if len(parts) == 1 else z3.Concat(*parts))
+            arrangements.append(And(result.z == cat, *order))
+        cases.append(z3.Implies(cond, Or(*arrangements)))
+    return And(*cases)
+
+
+CER_SET = Contract(
+    id='cer.encoder::SetEncoder.encodeValue[value-object,3-members]', file=F, qual='SetEncoder.encodeValue',
+    properties=['C03', 'C04', 'C02'],
+    params=dict(self=PObj('SetEncoder', methods={'_componentSortKey': _member_sort_key}), value=PDerived(_set_record),
+                asn1Spec=PConst(None), encodeFun=PConst(FnV(_encode_member3, 'encodeFun')), options=POptions()),
+    globals={'set_expected': FnV(_set_expected, 'set_expected'), 'null': SeqV(z3.Empty(z3.SeqSort(z3.IntSort())), 'bytes')},
+    loops={0: Loop(unroll=True), 2: Loop(unroll=True)},
+    ensures=[('present-members-in-ascending-tag-order', 'set_expected(result[0])'),
+             ('constructed', 'result[1] is True and result[2] is True')],
+    note='BOUNDED to records of 3 members, every OPTIONAL/DEFAULT pattern and every tag order; the sort keys are the callee '
+         'contracts _componentSortKey / _tagSortKey')
+CER_SET.bounded = 'SET types of exactly 3 members, every OPTIONAL / DEFAULT / value pattern and every assignment of tag keys'
+CONTRACTS = CONTRACTS + [CER_SET]
